@@ -200,7 +200,8 @@ def pmap(fn, cases, nproc=None, case_timeout=120, on_result=None):
         rest = w['idxs'][w['done']:]
         if w['cur'] is not None and rest and rest[0] == w['cur']:
             try:
-                tail = open(w['err'], 'rb').read()[-6000:].decode('utf-8', 'replace')
+                raw = open(w['err'], 'rb').read()
+                tail = (raw if len(raw) <= 9000 else raw[:6000] + b'\n...\n' + raw[-3000:]).decode('utf-8', 'replace')
             except OSError:
                 tail = ''
             sig = os.WTERMSIG(status) if os.WIFSIGNALED(status) else 0
